@@ -22,7 +22,14 @@ def cases(draw, tier="quick"):
     nodes = draw(treemodel.trees(mode="dir", max_nodes=16, min_nodes=3, want_special=True, want_hlinks=True, name_max=30, file_bias=True))
     case = dict(mode=mode, opts=o, nodes=nodes, perms=draw(st.lists(st.integers(1, 10 ** 6), min_size=2, max_size=4, unique=True)))
     if mode == "glob":
-        case["glob"] = dict(prefix=draw(st.sampled_from([b"", b"/pre"])), mode=None, uid=None, gid=None, types=None)
+        # (-keeptime / -nohardlinks come before the first -type on the line)
+        case["glob"] = dict(prefix=draw(st.sampled_from([b"", b"/pre"])), mode=None, uid=None, gid=None,
+                            types=draw(st.sampled_from([None, None, ["f", "d", "l"], ["d", "f", "l", "p", "s", "c", "b"]])))
+    # one directory pretends to be a mount point (another st_dev at and below it): with -o / -xdev the result must still not
+    # depend on where in its parent's listing it shows up
+    dl = [n["path"] for n in nodes if n["type"] == "dir" and b"\n" not in n["path"]]
+    if o["one_fs"] and dl and draw(st.booleans()):
+        case["mount"] = draw(st.sampled_from(dl))
     return case
 
 
@@ -39,9 +46,10 @@ def check_case(case, opts):
         os.mkdir(base)
         # materialise once, then reuse the same source directory for every permutation
         c0 = dict(case)
+        menv = {"VERIF_RD_MOUNT_SUFFIX": "/src/" + os.fsdecode(case["mount"])} if case.get("mount") else {}
         try:
             r, out = packlib.run_pack(c0, base, variant="plain", preload=shim,
-                                      env=dict(VERIF_RD_MODE="identity", VERIF_RD_LOG=os.path.join(sc, "rd0.log")),
+                                      env=dict(VERIF_RD_MODE="identity", VERIF_RD_LOG=os.path.join(sc, "rd0.log"), **menv),
                                       extra_args=(["-o"] if o.get("one_fs") else []))
         except OSError as e:
             raise Inconclusive(str(e))
@@ -55,7 +63,7 @@ def check_case(case, opts):
             log = os.path.join(sc, "rd%d.log" % (i + 1))
             o2 = os.path.join(sc, "out%d.sqfs" % (i + 1))
             cmd2 = list(cmd[:-1]) + ["-f", o2]
-            env = dict(VERIF_RD_MODE=m, VERIF_RD_SEED=str(seed), VERIF_RD_LOG=log)
+            env = dict(VERIF_RD_MODE=m, VERIF_RD_SEED=str(seed), VERIF_RD_LOG=log, **menv)
             if o.get("source_date_epoch") is not None:
                 env["SOURCE_DATE_EPOCH"] = str(o["source_date_epoch"])
             cwd = os.path.join(base, "input") if case["mode"] == "glob" else base
@@ -99,6 +107,8 @@ def check_case(case, opts):
         cl = ["mode_" + case["mode"]]
         if has_multilink(case["nodes"]):
             cl.append("multilink" + ("_nohl" if o.get("no_hard_links") else ""))
+        if case.get("mount"):
+            cl.append("pretended_mount_point")
         return CaseInfo(differed >= 1, cl)
 
 
